@@ -28,7 +28,8 @@ func defC11b(mode int) *ph.Def {
 		Cmds: []*ph.CmdDef{
 			{Name: "c", Opts: []ph.OptDef{{Name: "creq", Kind: ph.Str, Required: true, Env: "VERIF_C11_CREQ"}, {Name: "cq2", Kind: ph.Bool, Required: true, ReqMsg: "cq2 please"}, {Name: "copt", Kind: ph.StrOpt, Required: true, DefS: "d", ReqMsg: "copt wanted"}},
 				Cmds: []*ph.CmdDef{{Name: "e", Opts: []ph.OptDef{{Name: "ereq", Kind: ph.Int, Required: true, ReqMsg: "ereq is mandatory"}}}}},
-			{Name: "w", Unset: true, Unknown: 3, Opts: []ph.OptDef{{Name: "wo", Kind: ph.Bool}}}, // wrapper: inherits nothing
+			{Name: "w", Unset: true, Unknown: 3, Opts: []ph.OptDef{{Name: "wo", Kind: ph.Bool}}},                                                   // wrapper: inherits nothing
+			{Name: "p", Opts: []ph.OptDef{{Name: "preq", Kind: ph.Str, Required: true, ReqMsg: "preq needed", PreValue: []string{"from-config"}}}}, // a value seeded with SetValue is not "supplied"
 		},
 	}}
 }
@@ -215,6 +216,21 @@ func c11Judge(pc *parserCase, verbose bool) ([]string, map[string]bool) {
 			}
 		}
 	}
+	// the caller's context may already be cancelled when Dispatch is called: help and required-option handling do not
+	// depend on it
+	if len(out) == 0 && len(pc.Argv) <= 2 && !o.HasErr {
+		p3 := ph.Build(pc.Def, pc.Env)
+		p3.CancelCtx()
+		o3 := p3.Run(pc.Argv, true)
+		p3.Close()
+		flags["cancelled_context"] = true
+		if o3.Panic == "" && !o3.Hang {
+			if o3.DIsHelp != o.DIsHelp || o3.DIsParsing != o.DIsParsing || o3.DErr != o.DErr || len(o3.Calls) != len(o.Calls) || o3.WDispatch != o.WDispatch {
+				out = append(out, fmt.Sprintf("with an already cancelled context Dispatch returns %q (help=%v parsing=%v, %d functions ran, %d bytes written), with a live one %q (help=%v parsing=%v, %d functions ran, %d bytes written)",
+					o3.DErr, o3.DIsHelp, o3.DIsParsing, len(o3.Calls), len(o3.WDispatch), o.DErr, o.DIsHelp, o.DIsParsing, len(o.Calls), len(o.WDispatch)))
+			}
+		}
+	}
 	return out, flags
 }
 
@@ -235,7 +251,7 @@ func init() {
 				depth = 5
 			}
 			alpha := []string{"--rreq=1", "--r1=1", "--rr=1", "--creq=1", "--cr=1", "--cq2", "--copt", "--copt=1", "--ereq=1", "--er=1", "c", "e", "n", "help", "--help", "--he", "--?", "zzz", "--v"}
-			ext := []string{"w", "--wo"} // an UnsetOptions wrapper command
+			ext := []string{"w", "--wo", "p", "--preq=1"} // an UnsetOptions wrapper command; a command whose required option got a value through SetValue
 			var defs []*ph.Def
 			envOf := map[*ph.Def]map[string]string{}
 			for mode := 0; mode < 3; mode++ {
